@@ -119,6 +119,16 @@ def render_prog(p, sep=" "):
     return sep.join(render_cmd(c) for c in p)
 
 
+def render_mixed(p, rng):
+    """several commands per line AND several lines: a command far right on one line is followed by commands at small
+    columns of later lines, so line:column texts do not grow with the index (seeded change C11-listing-widths-from-last-entry)"""
+    out = []
+    for i, c in enumerate(p):
+        out.append(render_cmd(c))
+        if i + 1 < len(p): out.append(rng.choice([" ", " ", " ", "  ", "\n", " \n"]))
+    return "".join(out)
+
+
 def push(v, area=None):
     if v == 0: return (0, 1, 0, area)
     for h in (3, 2, 5, 7):
